@@ -17,7 +17,8 @@ From Coq Require Import ZArith QArith List Bool.
 Import ListNotations.
 Require Import SC3.model.Osc SC3.model.OscSize.
 Require Import SC3.proofs.C06_base SC3.proofs.C06_size SC3.proofs.C06_clump
-               SC3.proofs.C06_readers SC3.proofs.C06_roundtrip.
+               SC3.proofs.C06_readers SC3.proofs.C06_roundtrip SC3.proofs.C06_gen.
+Require Import SC3.lib.PyNum SC3.gen.Gen_size.
 Open Scope Z_scope.
 
 (* ---- alignment ---------------------------------------------------------- *)
@@ -105,7 +106,10 @@ Theorem msg_roundtrip_snapshot_refuted : exists addr args d ps,
   build_pkt false (AList (AStr addr :: args)) = Ok d /\
   parse_msg d = Ok (addr, ps) /\
   args = [AStr [97; 0; 98]] /\ ps = [PStr [97; 98]].
-Proof. exists [47; 120], [AStr [97; 0; 98]]. eexists. eexists. vm_compute. repeat split. Qed.
+Proof.
+  exists [47; 120], [AStr [97; 0; 98]], [47; 120; 0; 0; 44; 115; 0; 0; 97; 0; 98; 0], [PStr [97; 98]].
+  vm_compute. repeat split.
+Qed.
 
 (* ---- bundles, any nesting depth ------------------------------------------ *)
 (* [expect nc a p]: p is what an OSC receiver must see for the Python list a
@@ -140,6 +144,10 @@ Theorem packet_roundtrip : forall nc a d fuel,
 Proof. intros nc a d fuel Hwf Hg Hb Hf. exact (rt_all nc a Hwf Hg d Hb fuel Hf). Qed.
 
 (* ---- size prediction ------------------------------------------------------ *)
+(* tie: the strpad4 of the size model is the REGENERATED NetAddr._strpad4 on ints *)
+Theorem strpad4_regenerated : forall n : Z, py__strpad4 (I n) = I (strpad4 n).
+Proof. exact strpad4_is_generated. Qed.
+
 (* the repaired prediction is never below the encoded size *)
 Theorem size_upper_bound : forall nc a d n,
   floats4 a = true -> build_pkt nc a = Ok d -> calc_pkt true a = Ok n -> zlen d <= n.
@@ -158,12 +166,19 @@ Qed.
 Theorem size_upper_bound_snapshot_refuted : exists a d n,
   a = AList [AStr [47; 120]; ABytes [97]] /\
   build_pkt false a = Ok d /\ calc_pkt false a = Ok n /\ n < zlen d.
-Proof. eexists. eexists. eexists. split; [reflexivity |]. vm_compute. repeat split. Qed.
+Proof.
+  exists (AList [AStr [47; 120]; ABytes [97]]), [47; 120; 0; 0; 44; 98; 0; 0; 0; 0; 0; 1; 97; 0; 0; 0], 13.
+  vm_compute. repeat split.
+Qed.
 (* ... and a non-ASCII str: len('éééé') = 4 characters, 8 bytes *)
 Theorem size_upper_bound_snapshot_refuted_utf8 : exists a d n,
   a = AList [AStr [47; 120]; AStr [195; 169; 195; 169; 195; 169; 195; 169]] /\
   build_pkt false a = Ok d /\ calc_pkt false a = Ok n /\ n < zlen d.
-Proof. eexists. eexists. eexists. split; [reflexivity |]. vm_compute. repeat split. Qed.
+Proof.
+  exists (AList [AStr [47; 120]; AStr [195; 169; 195; 169; 195; 169; 195; 169]]),
+         [47; 120; 0; 0; 44; 115; 0; 0; 195; 169; 195; 169; 195; 169; 195; 169; 0; 0; 0; 0], 16.
+  vm_compute. repeat split.
+Qed.
 
 (* ---- clumps ---------------------------------------------------------------- *)
 (* every element exactly once and in order (snapshot and repaired); no empty clump (repaired) *)
@@ -184,7 +199,8 @@ Qed.
 Theorem clump_partition_snapshot_refuted : exists size es cs,
   clump_bundle false size es = Ok cs /\ In [] cs.
 Proof.
-  exists 24, [AList [AStr [47; 120]; AInt 1]]. eexists. split; [vm_compute; reflexivity | left; reflexivity].
+  exists 24, [AList [AStr [47; 120]; AInt 1]], [[]; [AList [AStr [47; 120]; AInt 1]]].
+  split; [vm_compute; reflexivity | left; reflexivity].
 Qed.
 
 (* every clump, sent as a bundle together with any extra elements, stays below
@@ -216,9 +232,16 @@ Theorem clump_within_limit_snapshot_refuted : exists size es cs c d,
   (forall e s, In e es -> calc_elem false e = Ok s -> 16 + (s + 4) < size) /\
   build_pkt false (AList (ATime None 1 :: c)) = Ok d /\ size <= zlen d.
 Proof.
-  exists 64, (repeat (AList [AStr [47; 120]; AInt 1]) 5). eexists. exists (repeat (AList [AStr [47; 120]; AInt 1]) 3). eexists.
+  pose (m := AList [AStr [47; 120]; AInt 1]).
+  exists 64, [m; m; m; m; m], [[m; m; m]; [m; m]], [m; m; m].
+  exists (bundle_prefix ++ [0; 0; 0; 0; 0; 0; 0; 1] ++
+          [0; 0; 0; 12; 47; 120; 0; 0; 44; 105; 0; 0; 0; 0; 0; 1] ++
+          [0; 0; 0; 12; 47; 120; 0; 0; 44; 105; 0; 0; 0; 0; 0; 1] ++
+          [0; 0; 0; 12; 47; 120; 0; 0; 44; 105; 0; 0; 0; 0; 0; 1]).
   split; [vm_compute; reflexivity |]. split; [left; reflexivity |]. split.
-  - intros e s He Hs. apply repeat_spec in He. subst e. vm_compute in Hs. inv_ok Hs. reflexivity.
+  - intros e s He Hs.
+    assert (e = m) as -> by (cbn [In] in He; intuition congruence).
+    vm_compute in Hs. inv_ok Hs. reflexivity.
   - vm_compute. split; [reflexivity | discriminate].
 Qed.
 
@@ -238,7 +261,13 @@ Example bundle_example : exists d cs,
                          AList [ATime (Some (1 # 2)) 2147483648; AList [AStr [47; 98]]]]) = Ok d /\
   parse_bundle_top d = Ok (PBundle 2147483648 cs) /\ length cs = 2%nat /\
   pkt_guard true (AList [ATime (Some (1 # 2)) 2147483648; AList [AStr [47; 97]; AInt 1]]) = true.
-Proof. eexists. eexists. vm_compute. repeat split. Qed.
+Proof.
+  exists [35; 98; 117; 110; 100; 108; 101; 0; 0; 0; 0; 0; 128; 0; 0; 0; 0; 0; 0; 12; 47; 97; 0; 0; 44; 105; 0; 0;
+          0; 0; 0; 1; 0; 0; 0; 28; 35; 98; 117; 110; 100; 108; 101; 0; 0; 0; 0; 0; 128; 0; 0; 0; 0; 0; 0; 8;
+          47; 98; 0; 0; 44; 0; 0; 0],
+         [PMsg [47; 97] [PInt 1]; PBundle 2147483648 [PMsg [47; 98] []]].
+  vm_compute. repeat split.
+Qed.
 Example refusal_example :
   build_pkt true (AList [AStr [47; 120]; AInt 2147483648]) = Err EBuild /\
   build_pkt true (AList [AStr [47; 120]; ABytes []]) = Err EBuild /\
